@@ -18,12 +18,18 @@ CLAIMED = {
             "DESIGN.md §4 C03"),
     "C08": ("model_checking", "same histories incl. naturally failing sub-messages (allowance/balance/limit/closed): after every transaction no tmp-swap / sent-funds / tmp-liquidator key remains; a failed transaction leaves raw storage of all contracts and all balances (semantically) identical",
             "DESIGN.md §4 C08"),
+    "C09": ("model_checking", "every privileged ExecuteMsg variant of all five contracts (23) x every sender kind (owner, pauser, engine, insurance fund, vAMM, trader, stranger, + new/old holders after a role transfer), enumerated exhaustively on fresh deployments with the repository's own price feed; payload amounts/ratios symbolic over the full range; non-role senders must be rejected with raw storage of all contracts and all balances unchanged, role holders must not be rejected for authorisation",
+            "DESIGN.md §4 C09"),
     "C10": ("model_checking", "same histories with 5 position holders: per transaction every other trader's whole Position record is proved equal term-for-term before and after (Liquidate: except the named trader)",
             "DESIGN.md §4 C10"),
     "C12": ("model_checking", "shared histories with toll and spread symbolic in [0,1] and amounts down to fee-rounds-to-zero: per transaction z3 proves fee-pool delta == floor(notional*toll), insurance-fund delta (net of recorded prepaid bad debt) == floor(notional*spread) with notional = floor(margin*leverage), once per reversal, the quoted fee on the open notional for whole closes, and zero for deposit/withdraw/funding/liquidation",
             "DESIGN.md §4 C12"),
+    "C14": ("model_checking", "flags paused x closed x unregistered (7 non-trivial combinations) x 6 engine operations on a staged state with a liquidatable position and due funding, operation amounts symbolic, twin live deployment for 'pause does not block liquidation/funding'; registry histories of AddVamm/RemoveVamm over 4 addresses (all of length<=3, sampled length 5; thorough: all of length<=5) checked for duplicates/size/membership agreement; shutdown from every subset of already-closed vAMMs",
+            "DESIGN.md §4 C14"),
     "C17": ("model_checking", "vAMM alone from ALL reserve pairs with symbolic amount and limit: InputAmount/OutputAmount query before == reserve deltas, net-position delta and event attributes after; limit semantics with the limit on both sides of the executed amount; through the engine the limit inside the delivered vAMM sub-message is proved equal to the caller's on fresh/increase/reduce/whole close",
             "DESIGN.md §4 C17"),
+    "C20": ("model_checking", "engine UpdateConfig with each optional ratio absent|symbolic over the full range (all 15 masks, sequences of 2-3, symbolic instantiate ratios), vAMM instantiate/UpdateConfig likewise with the twap interval from the boundary set; after every call z3 proves all stored ratios <= 1 and maintenance <= initial; AddVamm x decimals enumerated; caps: symbolic open-interest and holding caps, whitelist enumerated, caps changed between trades, margins symbolic",
+            "DESIGN.md §4 C20"),
     "C19": ("model_checking", "two engines: (1) Kani/CBMC bit-precise harnesses over ALL 2^129 operand representations (incl. -0) for add/sub/neg/abs/constructors/cmp/eq/sign predicates and checked-vs-unchecked agreement, loop-free so complete for the input space (thorough adds full-width checked_mul); (2) symx/z3 for full-width mul, truncating div, add/sub, ordering and the Display/FromStr/serde round trip with symbolic 128-bit magnitudes",
             "DESIGN.md §3, §4 C19"),
 }
